@@ -192,6 +192,9 @@ def _prepend_package_lua(orig_ast, package_lua):
         package_header.append(
             b'package._c["' + escaped_pth + b'"]=function()\n')
         package_header.extend(ast.to_lines())
+        if not package_header[-1].endswith(b'\n'):
+            # The file's last line has no newline. Keep it apart from "end".
+            package_header.append(b'\n')
         package_header.append(b'end\n')
     package_header.extend(REQUIRE_LUA_PREAMBLE_REQUIRE)
     new_code = package_header + list(orig_ast.to_lines())
